@@ -60,6 +60,13 @@ var fixedCases = []fixedCase{
 		txHex:    "010000000001010b6df494dc3dcc2ac0e1b1415f0e786b9352b6c5e018a087f26eb48eb1a1d41d0000000000ffffffff00040001010251ba21c116f3a08ffe85c2991515d279b13d79db94cd1543be08217f5ff1d0048b885b1d00000000",
 		pkScript: "5120c50a5efd18e8115554795ece3b9435f801299839c4494dd82fd064ed08dd9ed8", modelValid: false,
 	},
+	{
+		// P2SH <pk> CHECKSIG SWAP <pk> CHECKSIG BOOLOR; one signature is correct, the other is the same
+		// signature with r+n in place of r (strict DER, low S, cannot verify)
+		sig: "checksig-unparseable-sig-or-key-skips-nullfail", flags: "standard",
+		txHex:    "01000000012c691bf5b7b7483394787fc12cc353ca442a191ded6bd2e2f3d1f1e34244cb9c00000000da48304502210142f6336c6589631061121756aee481cdc5b0d67761e044462d5675c9b6dbae9502202c0a6981951035ddb905983fa5af0fb2ae86976d2862cb8f5d5054da2c9bff3f01473044022042f6336c6589631061121756aee481cf0b01f990b297a40a6d84173ce6a56d5402202c0a6981951035ddb905983fa5af0fb2ae86976d2862cb8f5d5054da2c9bff3f0148210316f3a08ffe85c2991515d279b13d79db94cd1543be08217f5ff1d0048b885b1dac7c210316f3a08ffe85c2991515d279b13d79db94cd1543be08217f5ff1d0048b885b1dac9bffffffff0000000000",
+		pkScript: "a91457018645297f854882d4c8a809d2c670093008ef87", modelValid: false,
+	},
 }
 
 func TestKnownFindingInputs(t *testing.T) {
